@@ -24,7 +24,7 @@ import (
 func init() {
 	fw.Register(&fw.Check{
 		ID: "C16", Level: "model_checking",
-		Rule: "controlled cooperative scheduler + DFS over schedules with iterative preemption bounding (0, 1, 2; thorough 3) on a source-instrumented build (import \"sync\" -> scheduler-aware shim; every statement touching the guarded fields of a mutex-bearing struct or a mutable package-level variable preceded by an access hook = scheduling point; every write to a struct field reached through a pointer, and every read of a field that some statement writes, reported to the happens-before monitor without a scheduling point (all packages but the scanner); generated VerifResetGlobals). H1: for each of the 7 generated collection types, every scenario of 2 writers x 1 reader with one operation each from {Set, SetToTop, Update, Set other key} x {Get, Len, Each, MarshalJSON} on keys forced to collide, from an empty or pre-filled collection: no data race (vector-clock happens-before monitor), no deadlock, the history is linearizable against a sequential ordered-map reference (brute force over the <= 3! orders consistent with real time), no lost update, every key once in the order; H2: 2-3 threads making the process's first calls to NewDirectiveType; H3: two whole parses (same / different / rejected documents) against package-level state; H4: one validated catalog whose first serialisation and reads happen in 2-3 threads at once (reference result from a second catalog built from the same text); plus a free-running pass of the same bodies under the Go race detector; non-trivial = schedule in which at least two threads touched the same object; distinct = distinct (scenario, schedule)",
+		Rule: "controlled cooperative scheduler + DFS over schedules with iterative preemption bounding (0, 1, 2; thorough 3) on a source-instrumented build (import \"sync\" -> scheduler-aware shim; every statement touching the guarded fields of a mutex-bearing struct or a mutable package-level variable preceded by an access hook = scheduling point; every write to a struct field reached through a pointer, and every read of a field that some statement writes, reported to the happens-before monitor without a scheduling point (all packages but the scanner); the pinned schema library's own synchronisation (two RWMutexes, one Once, two sync.Pools - the pools as deterministic LIFO free lists, fresh per execution, Get / Put scheduling points with the Put -> Get happens-before edge) redirected to the same shim; generated VerifResetGlobals). H1: for each of the 7 generated collection types, every scenario of 2 writers x 1 reader with one operation each from {Set, SetToTop, Update, Set other key} x {Get, Len, Each, MarshalJSON} on keys forced to collide, from an empty or pre-filled collection: no data race (vector-clock happens-before monitor), no deadlock, the history is linearizable against a sequential ordered-map reference (brute force over the <= 3! orders consistent with real time), no lost update, every key once in the order; H2: 2-3 threads making the process's first calls to NewDirectiveType; H3: two whole parses (same / different / rejected documents) against package-level state; H4: one validated catalog whose first serialisation and reads happen in 2-3 threads at once (reference result from a second catalog built from the same text); plus a free-running pass of the same bodies under the Go race detector; non-trivial = schedule in which at least two threads touched the same object; distinct = distinct (scenario, schedule)",
 		Assume: []string{"weak-memory reorderings are not modelled: the happens-before monitor reports the race that would permit them", "the schema library's own synchronisation is covered only by the free-running race-detector pass"},
 		Run:    runC16, QuickCap: 10 * time.Minute, ThoroughCap: 40 * time.Minute,
 	})
@@ -694,11 +694,13 @@ func runC16(c *fw.Ctx) {
 	for _, pair := range [][]string{{"ok-a", "ok-a"}, {"ok-a", "ok-b"}, {"ok-b", "rejected"}, {"rejected", "rejected"}, {"rich-a", "rich-b"}, {"rich-a", "rich-a"}} {
 		pair := pair
 		h := harness{name: "H3-parses " + strings.Join(pair, "+")}
-		if strings.HasPrefix(pair[0], "rich") {
-			h.maxBound = 1 // long executions (thousands of monitored accesses): preemption bound 1 in the quick tier, 2 in the thorough tier
-			if !c.Quick() {
-				h.maxBound = 2
-			}
+		// whole parses are long executions (every schema load goes through the schema library's
+		// pools, each Get / Put a scheduling point): preemption bound 1 in the quick tier; in the
+		// thorough tier 2 for the long documents and the tier's bound for the short ones
+		if c.Quick() {
+			h.maxBound = 1
+		} else if strings.HasPrefix(pair[0], "rich") {
+			h.maxBound = 2
 		}
 		h.setup = func() ([]func(), []interface{}, func() (string, string)) {
 			res := make([]string, len(pair))
@@ -723,6 +725,9 @@ func runC16(c *fw.Ctx) {
 	for _, n := range []int{2, 3} {
 		n := n
 		h := harness{name: fmt.Sprintf("H4-shared-catalog readers=%d", n)}
+		if c.Quick() && n == 3 {
+			h.maxBound = 1
+		}
 		h.setup = func() ([]func(), []interface{}, func() (string, string)) {
 			cc := core.NewJApiCore(fs.NewFile("root.jst", []byte(docs["ok-b"]+"GET /z\n  200 any\nSERVER @s\n  BaseUrl \"http://x\"\n")), core.WithFixedSeedForRegex())
 			if je := cc.ValidateJAPI(); je != nil {
